@@ -30,7 +30,7 @@ for sid in ids:
     try:
         for p in props:
             t0 = time.time()
-            rc, o = sh("VERIF_NO_CONFIRM=1 bin/check %s quick" % p, VERIF)
+            rc, o = sh("bin/check %s quick" % p, VERIF)
             res[p] = {"exit": rc, "violation_lines": len([l for l in o.splitlines() if l.startswith("VIOLATION")]),
                       "first": [l.strip()[:300] for l in o.splitlines() if l.startswith("  [")][:2], "wall_s": round(time.time() - t0, 1)}
     finally:
